@@ -4,7 +4,7 @@ known_findings.json matches one failure mode."""
 
 import json
 
-from .mq import selected_topics, EPOCH_NS
+from .mq import selected_topics, eph_classifier, EPOCH_NS
 
 SYS_TOPICS = ('_filter', '_metrics')
 
@@ -35,18 +35,50 @@ def scenario_causes(sc):
     return sorted(c)
 
 
+class _BySrc(dict):
+    """Frames of a delivered set per source ENTRY of the consumer (a consumer may be attached to one publisher twice, e.g.
+    synchronized for one topic and ephemerally for another). Indexed by the entry dict itself (identity) or, when the
+    publisher appears only once among the sources, by its node id."""
+
+    def __init__(self, srcs):
+        super().__init__()
+        self.srcs = srcs
+        for s in srcs:
+            dict.__setitem__(self, id(s), [])
+
+    def __getitem__(self, key):
+        if isinstance(key, dict):
+            return dict.__getitem__(self, id(key))
+        for s in self.srcs:
+            if s['from'] == key:
+                return dict.__getitem__(self, id(s))
+        raise KeyError(key)
+
+    def names(self):
+        return [(s['from'], dict.__getitem__(self, id(s))) for s in self.srcs]
+
+
 def attribute_set(world, nid, desc):
-    """Split a delivered frame set by source: {source nid: [(delivered topic, fd, pubinfo|None)]}, plus unattributed."""
+    """Split a delivered frame set by source entry, plus unattributed frames (no provenance or foreign origin)."""
     sc = world.sc
     srcs = _sources(sc, nid)
-    by_src = {s['from']: [] for s in srcs}
+    by_src = _BySrc(srcs)
     unattributed = []
     for topic, fd in desc.items():
         tok = fd['tok']
-        if tok is not None and fd['o'] in by_src:
-            by_src[fd['o']].append((topic, fd, world.tok2pub.get(tok)))
-        else:
+        cands = [s for s in srcs if s['from'] == fd['o']] if tok is not None else []
+        if not cands:
             unattributed.append((topic, fd))
+            continue
+        pub = world.tok2pub.get(tok)
+        s = cands[0]
+        if len(cands) > 1 and pub is not None:
+            # several entries for this publisher: the one whose subscription maps the published topic to this name
+            for c in cands:
+                if selected_topics(c.get('sub'), [pub[2]]).get(pub[2]) == topic:
+                    s = c
+                    break
+        by_src[s].append((topic, fd, pub))
     return by_src, unattributed
 
 
@@ -70,7 +102,7 @@ def check_c01(world):
         # (a) one id across all synchronized sources
         mids = {}
         for s in sync:
-            for topic, fd, pub in by_src[s['from']]:
+            for topic, fd, pub in by_src[s]:
                 if pub is None:
                     out.append(V('C01', 'phantom_frame', f'{nid}#{inc} call {k}: frame tok={fd["tok"]} on {topic!r} '
                                  f'was never published', step, now, shape=sc['shape']))
@@ -88,9 +120,9 @@ def check_c01(world):
         mid = next(iter(mids))
         stats['c01_sets_multi_source'] += len(sync) > 1
         # (b) exact topic set per synchronized source
-        delivering = [s for s in sync if by_src[s['from']]]
+        delivering = [s for s in sync if by_src[s]]
         for s in sync:
-            got = by_src[s['from']]
+            got = by_src[s]
             up = s['from']
             if balance and not got:
                 continue
@@ -128,7 +160,7 @@ def check_c01(world):
         # (c) a rejoined set descends from one original frame per root source
         roots = {}
         for s in sync:
-            for topic, fd, pub in by_src[s['from']]:
+            for topic, fd, pub in by_src[s]:
                 for r in fd['r']:
                     a, b, c = r.rsplit('.', 2)
                     roots.setdefault((a, b), set()).add(int(c))
@@ -183,7 +215,7 @@ def check_c02(world):
         by_src, unattributed = attribute_set(world, nid, desc)
         for s in srcs:
             up = s['from']
-            got = by_src[up]
+            got = by_src[s]
             if not got:
                 continue
             eph = s.get('eph', 0)
@@ -193,10 +225,13 @@ def check_c02(world):
                 if not eph:
                     key = (nid, inc, up)
                     prev = last_mid.get(key)
-                    if prev is not None and mid <= prev and owner == prev_owner.get(key):
-                        out.append(V('C02', 'order' if mid < prev else 'duplicate_id',
-                                     f'{nid}#{inc} call {k}: id {mid} from {owner} delivered after id {prev}',
-                                     step, now, shape=sc['shape'], causes=causes))
+                    if prev is not None and mid <= prev:
+                        # ids never go back at a consumer, also across restarts of the publisher: a restarted publisher is
+                        # fast-forwarded by the consumer's requests and anything older is discarded by the receiver
+                        same = owner == prev_owner.get(key)
+                        out.append(V('C02', ('order' if mid < prev else 'duplicate_id') + ('' if same else '_across_restart'),
+                                     f'{nid}#{inc} call {k}: id {mid} from {owner} delivered after id {prev} from '
+                                     f'{prev_owner.get(key)}', step, now, shape=sc['shape'], causes=causes))
                     last_mid[key] = mid
                     prev_owner[key] = owner
                     sp = seen_pub.setdefault((nid, up), set())
@@ -375,7 +410,7 @@ def check_c07(world):
             continue
         stats['c07_rejoin_sets'] += 1
         by_src, un = attribute_set(world, nid, desc)
-        srcs = [s for s, lst in by_src.items() if lst]
+        srcs = [name for name, lst in by_src.names() if lst]
         if len(srcs) > 1:
             out.append(V('C07', 'mixed_sources', f'{nid}#{inc} call {k}: set combines frames of {srcs}', step, now,
                          shape=sc['shape']))
@@ -499,7 +534,8 @@ def check_c05(world):
     exp_inputs, _ = model.evaluate(sc, only_sync=True)
     conclusive = world.stop_reason in ('settled', 'quiescent')
     for nid, exp in exp_inputs.items():
-        eph_from = {s['from'] for s in nodes[nid].get('sources') or [] if s.get('eph')}
+        is_eph = eph_classifier(nodes[nid])
+        has_eph = any(s.get('eph') for s in nodes[nid].get('sources') or [])
         obs = []
         for e in world.events:
             if e[0] == 'in' and e[3] == nid and e[4] == 0:
@@ -508,11 +544,30 @@ def check_c05(world):
                 # recognised by their origin, without (data-less / system topics) by not being expected by name
                 obs.append({t: (fd['o'], fd['n'], tuple(fd['r'])) if fd['tok'] is not None else (None, None, ())
                             for t, fd in e[7].items()
-                            if (fd['tok'] is not None and fd['o'] not in eph_from) or
-                               (fd['tok'] is None and (not eph_from or t in want))})
+                            if (fd['tok'] is not None and not is_eph(t, fd['o'])) or
+                               (fd['tok'] is None and (not has_eph or t in want))})
         stats['c05_backbone_sequences'] += 1
         n = min(len(obs), len(exp))
         bad = next((i for i in range(n) if obs[i] != exp[i]), None)
+        strip = lambda fs: {t: (o, r) for t, (o, nn, r) in fs.items()}     # emit counters shift when a head is lost upstream
+        obs_k, exp_k = [strip(x) for x in obs], [strip(x) for x in exp]
+        head = None
+        if len(exp) > len(obs) == 0 and conclusive:
+            head = len(exp)
+        elif bad == 0 and obs:
+            # the stream does not start with the first frame: how many leading sets are missing (0 = cannot tell, e.g. a
+            # join whose independent sources were realigned by id after the loss)
+            head = exp_k.index(obs_k[0]) if obs_k[0] in exp_k else 0
+        if head is not None:
+            k0 = head
+            if True:
+                # only the head of the stream is missing; everything from set k0 on is exact
+                twice = any(len({bool(x.get('eph')) for x in sp.get('sources') or [] if x['from'] == y['from']}) > 1
+                            for sp in nodes.values() for y in sp.get('sources') or [])
+                out.append(V('C05', 'backbone_head_lost', f'{nid}: the synchronized stream does not start with the first '
+                             f'frame ({k0 or "?"} leading set(s) missing: starts with {_fmt_set(obs[0]) if obs else "nothing"}, '
+                             f'expected {_fmt_set(exp[0])})', None, None, shape=sc['shape'], twice_attached=twice))
+                continue
         if bad is not None:
             out.append(V('C05', 'backbone_altered', f'{nid}: synchronized input {bad} is {_fmt_set(obs[bad])}, the '
                          f'pipeline without ephemeral listeners yields {_fmt_set(exp[bad])}', None, None,
@@ -520,6 +575,12 @@ def check_c05(world):
         elif len(obs) != len(exp) and (conclusive or len(obs) > len(exp)):
             out.append(V('C05', 'backbone_count', f'{nid}: {len(obs)} synchronized sets delivered, expected {len(exp)} '
                          f'(stop: {world.stop_reason})', None, None, shape=sc['shape']))
+    # a lost head at a twice-attached consumer (open known finding) makes that consumer request a newer id, which its
+    # other upstream branches obey by skipping ids: such follow-on alterations are marked as consequences
+    if any(v['oracle'] == 'backbone_head_lost' and v['signature'].get('twice_attached') for v in out):
+        for v in out:
+            if v['oracle'] in ('backbone_altered', 'backbone_count'):
+                v['signature']['consequence_of_head_loss'] = True
     # (b) never delays: inter-arrival gaps at synchronized nodes stay below G
     G = backbone_bound_ns(sc)
     stats['c05_G_ms_max'] = max(stats['c05_G_ms_max'], G // 1_000_000)
@@ -574,7 +635,7 @@ def check_c05(world):
         for s in srcs:
             if not s.get('eph'):
                 continue
-            got = by_src[s['from']]
+            got = by_src[s]
             if not got:
                 continue
             stats['c05_ephemeral_sets'] += 1
